@@ -469,7 +469,7 @@ package boltz
 //@ func Path
 //@   pure
 //@   ensures result != nil ==> result.Bucket != nil
-//@   censures[the-bucket-at-the-path] (result != nil) == (pathB(tx, arr(path), len(path)) != 0) && (result != nil ==> ref(result.Bucket) == pathB(tx, arr(path), len(path)) && result.ErrorHolderImpl != nil && result.Err == nil && fresh(result))
+//@   censures[the-bucket-at-the-path] (result != nil) == (pathB(tx, arr(path), len(path)) != 0) && (result != nil ==> ref(result.Bucket) == pathB(tx, arr(path), len(path)) && result.ErrorHolderImpl != nil && result.Err == nil && fresh(result) && allocated(result.Bucket))
 //@ func (*setIndex).OpenValueCursor
 //@   props C14
 //@   pure
